@@ -145,6 +145,8 @@ package interp
 //@   ensures instantiation-errors-are-reported: (called(genAST) && lastRes(genAST, 2) != nil ==> err != nil) && (called(genRun) && lastRes(genRun, 0) != nil ==> err != nil)
 //@   ensures index-checked-on-the-index-operand: called(index) ==> lastArg(index, 0) == n.child[1] && err == lastRes(index, 0)
 //@   ensures [local:typ] array-index-checked-against-the-length: called(index) && typ.Kind() == reflect.Array ==> lastArg(index, 1) == typ.Len()
+//@   ensures [local:typ] index-through-a-pointer-checked-against-the-array-length: called(index) && typ.Kind() == reflect.Ptr && typ.Elem().Kind() == reflect.Array ==> lastArg(index, 1) == typ.Elem().Len()
+//@   ensures [local:typ] no-length-for-slices-and-strings: called(index) && (typ.Kind() == reflect.Slice || typ.Kind() == reflect.String) ==> lastArg(index, 1) == -1
 //@   ensures [local:typ] index-rule-only-for-indexable-operands: called(index) ==> typ.Kind() == reflect.Array || typ.Kind() == reflect.Slice || typ.Kind() == reflect.String || (typ.Kind() == reflect.Ptr && typ.Elem().Kind() == reflect.Array)
 //@   ensures [local:t] map-key-checked-against-the-key-type: called(assignment) ==> lastArg(assignment, 0) == n.child[1] && lastArg(assignment, 1) == t.key && err == lastRes(assignment, 0)
 //@   canary err != nil
